@@ -417,5 +417,5 @@ fn main() {
 }
 
 fn clock_default() -> sched::ClockModel {
-    sched::ClockModel { now: 0, freq: 1, read_step: 0, precision_override: None, overheads: [0; 4] }
+    sched::ClockModel { now: 0, freq: 1, read_step: 0, precision_override: None, overheads: [0; 4], quantum: 0 }
 }
